@@ -1,6 +1,6 @@
 ---- MODULE Gen_VoiceSet ----
 (* Replay cases for C19 (compatibility, weight histories) and C10 (interpolated parameters). *)
-EXTENDS VoiceSet, Json
+EXTENDS VoiceSet, Json, SequencesExt
 CONSTANTS Mode, L, Fams, Salts, NVoices
 VARIABLES st, hist
 vars == <<st, hist>>
@@ -36,7 +36,34 @@ CompatNext == /\ st = "init"
 CompatDocs == [i \in 1..Len(hist.kinds) |-> IF i = 1 /\ hist.kinds[1] = "same" THEN Doc(BaseFam(hist.fam))
                                              ELSE Variant(BaseFam(hist.fam), hist.kinds[i])]
 \* first voice is always the base unless the list is empty: kinds[1] is forced to "same" by the constraint below
-CompatEmit == st = "done" /\ (Len(hist.kinds) = 0 \/ hist.kinds[1] = "same") =>
+\* ---- "exactly one metadata field differs": the metadata a voice carries once loaded, as a record.  A file cannot differ in
+\* NUM_STREAMS alone (the stream list would differ too), a loaded Voice can (public fields): the harness mutates one field of a
+\* copy of the loaded base voice.  Two voices may be combined iff their metadata records are equal.
+Meta(d) == [rate |-> d.rate, fperiod |-> d.fperiod, nstate |-> d.nstate, nstream |-> Len(d.streams),
+            stream_type |-> [s \in 1..Len(d.streams) |-> d.streams[s].name],
+            streams |-> [s \in 1..Len(d.streams) |-> [vlen |-> d.streams[s].vlen, nwin |-> Len(d.streams[s].wins), msd |-> d.streams[s].msd,
+                                                      usegv |-> d.streams[s].usegv, opts |-> d.streams[s].opts]]]
+MetaFields == {"none", "rate", "fperiod", "nstate", "nstream", "stream_type"}
+StreamFields == {"vlen", "nwin", "msd", "usegv", "opts"}
+Mutate(m, f, s) ==
+  CASE f = "none" -> m
+    [] f = "rate" -> [m EXCEPT !.rate = m.rate + 1]
+    [] f = "fperiod" -> [m EXCEPT !.fperiod = m.fperiod + 1]
+    [] f = "nstate" -> [m EXCEPT !.nstate = m.nstate + 1]
+    [] f = "nstream" -> [m EXCEPT !.nstream = m.nstream + 1]
+    [] f = "stream_type" -> [m EXCEPT !.stream_type[s] = "XXX"]
+    [] f = "vlen" -> [m EXCEPT !.streams[s].vlen = m.streams[s].vlen + 1]
+    [] f = "nwin" -> [m EXCEPT !.streams[s].nwin = m.streams[s].nwin + 1]
+    [] f = "msd" -> [m EXCEPT !.streams[s].msd = ~m.streams[s].msd]
+    [] f = "usegv" -> [m EXCEPT !.streams[s].usegv = ~m.streams[s].usegv]
+    [] f = "opts" -> [m EXCEPT !.streams[s].opts = Append(m.streams[s].opts, "X=1")]
+FieldCases(k) == LET d == Doc(BaseFam(k))  m == Meta(d)  ns == Len(d.streams) IN
+  { [field |-> f, stream |-> 0, n |-> n, pos |-> p, ok |-> (Mutate(m, f, 1) = m)] : f \in MetaFields \ {"stream_type"}, n \in 2..3, p \in 2..3 }
+  \cup { [field |-> f, stream |-> s, n |-> n, pos |-> p, ok |-> (Mutate(m, f, s) = m)] : f \in StreamFields \cup {"stream_type"}, s \in 1..ns, n \in 2..3, p \in 2..3 }
+FieldEmit == (st = "done" /\ Len(hist.kinds) = 0) =>
+   PrintT(<<"CASE", ToJson([kind |-> "field", voice |-> Render(Doc(BaseFam(hist.fam))),
+                            cases |-> SetToSeq({c \in FieldCases(hist.fam) : c.pos <= c.n})])>>)
+CompatEmit == FieldEmit /\ (st = "done" /\ (Len(hist.kinds) = 0 \/ hist.kinds[1] = "same")) =>
    PrintT(<<"CASE", ToJson([kind |-> "compat", kinds |-> hist.kinds,
                             voices |-> [i \in 1..Len(hist.kinds) |-> Render(CompatDocs[i])],
                             ok |-> SetOK(CompatDocs)])>>)
